@@ -914,6 +914,7 @@ func TestSeeds(t *testing.T) {
 		{`null`, `"{\"z\":{\"y\":1,\"x\":2,\"w\":3},\"m\":[{\"b\":1,\"a\":2}]}" | fromjson | [..], [paths], (.m[0] | keys, to_entries), ([.z[]] | add)`, "fromjson-object-key-order"},
 		{`{"_error":{"error":"x"},"a":1}`, `tojson | fromjson`, "fromjson-document-with-_error-key"},
 		{`null`, `"{\"_error\":1}" | fromjson | ._error`, "fromjson-document-with-_error-key"},
+		{`{"h":1}`, `[., {"zz":1}, {"zz":2}] | add, .`, "json-input-changed-by-add"},
 		{`"nan"`, `split(@base64d)`, ""},
 		{`"true"`, `@base64d | split(tojson | fromjson)`, ""},
 		{`null`, `"1" | fromjson | .a`, ""},
@@ -947,6 +948,12 @@ func TestSeeds(t *testing.T) {
 		if sig, msg := cliCheck(p, sd.input); sig != "" {
 			report(sig, msg, sd.prog)
 		}
+		jsonDocCheck(t, sd.input, input, []pair{{p, ref}}, func(sig, msg, prog string) {
+			if sd.regression == "" && harness.Known(sig) {
+				return
+			}
+			report(sig, msg, prog)
+		})
 	}
 	if eng.x != nil {
 		eng.x.Close()
